@@ -172,22 +172,26 @@ func vh_C24_sequential() {
 		// the property speaks about a refresh BEFORE the deadline
 		vAssume(e.ttlMs > 4000)
 	}
-	vAdvance(2 * sec) // now = 6 s
+	// the sweep runs at 6 s or at 7 s (at 7 s, with a TTL in (4 s, 5 s], key b
+	// has expired while the refreshed key a has not)
+	sweepAt := int64(6000 + 1000*vChoice("sweep_late", 2))
+	vAdvance(sweepAt*int64(time.Millisecond) - 4*sec)
 	nBefore := len(e.h.events)
 	e.sweep()
 	live, removals := e.check("after the sweep")
-	expA := e.ttlMs <= 6000
+	expA := e.ttlMs <= sweepAt
 	if refreshed {
-		expA = 4000+e.ttlMs <= 6000
+		expA = 4000+e.ttlMs <= sweepAt
 	}
 	vAssert(vIff(live["a"] == 0, expA), "key-removed-iff-its-(refreshed)-deadline-elapsed")
 	vAssert(vIff(removals["a"] == 1, expA) && removals["a"] <= 1, "exactly-one-removal-iff-expired")
 	nRemoved := removals["a"]
 	if twoKeys {
-		expB := 2000+e.ttlMs <= 6000
+		expB := 2000+e.ttlMs <= sweepAt
 		vAssert(vIff(live["b"] == 0, expB), "other-key-removed-iff-its-deadline-elapsed")
 		vAssert(vIff(removals["b"] == 1, expB) && removals["b"] <= 1, "other-key-exactly-one-removal-iff-expired")
 		nRemoved += removals["b"]
+		vCover(refreshed && live["a"] != 0 && live["b"] == 0, "abandoned-key-expired-while-other-kept-alive")
 	}
 	vAssert(len(e.h.events) == nBefore+nRemoved, "sweep-broadcasts-exactly-the-expired-keys")
 	vCover(live["a"] == 0, "expired-and-removed")
